@@ -229,6 +229,33 @@ def _close(a, b, tol=1e-7):
     return a == b
 
 
+def _positional(real, replacement):
+    """A stand-in is written against the real function's parameter ORDER; the real code may pass any of them by keyword (a refactoring
+    that switches a call site to keyword arguments must not change a verdict): arguments are bound to the real signature and the leading
+    ones handed over positionally, whichever way the caller spelled them."""
+    import inspect
+
+    try:
+        sig = inspect.signature(real)
+    except (TypeError, ValueError):
+        return replacement
+    names = [p.name for p in sig.parameters.values() if p.kind in (p.POSITIONAL_ONLY, p.POSITIONAL_OR_KEYWORD)]
+    if any(p.kind is p.VAR_POSITIONAL for p in sig.parameters.values()):
+        return replacement
+
+    def call(I, *args, **kwargs):
+        if kwargs:
+            args = list(args)
+            for name in names[len(args):]:
+                if name in kwargs:
+                    args.append(kwargs.pop(name))
+                else:
+                    break
+        return replacement(I, *args, **kwargs)
+
+    return call
+
+
 class Harness:
     """What an obligation function sees.  mode: 'sym' or 'concrete'."""
 
@@ -383,7 +410,7 @@ class Harness:
         """Modular call: while interpreting, calls of `fn` go to `replacement(interp, *args)`."""
         if self.mode == "sym":
             f = fn.__func__ if isinstance(fn, types.MethodType) else fn
-            self.ctx.overrides[id(f)] = replacement
+            self.ctx.overrides[id(f)] = _positional(f, replacement)
 
     def capture_args(self, owner, name, run, result=None):
         """Run `run()` with `owner.name` replaced by a recorder; -> list of (args, kwargs) it was called with.
